@@ -101,6 +101,39 @@ func growthWitness(rep *Report) {
 	rep.count(fmt.Sprintf("growth-witness-reads=%d", reads))
 }
 
+// lateIndexWitness: an index created on a collection that already spans three chunks, none of whose rows
+// satisfies the rule yet (so the back-fill sets no bit); then two writers make rows of chunk 1 and chunk 2
+// satisfy it at the same time. Each commits under its own chunk latch into the index's one flat bitmap
+// (defect D25, repaired: the bitmap must already cover every allocated chunk).
+func lateIndexWitness(rep *Report) {
+	c := column.NewCollection(column.Options{Capacity: 64, Vacuum: 24 * time.Hour})
+	c.CreateColumn("a", column.ForInt64())
+	insertMarkers(c, 0, 16384, 32768)
+	for _, r := range []uint32{0, 16384, 32768} {
+		c.QueryAt(r, func(row column.Row) error { row.SetInt64("a", 0); return nil })
+	}
+	c.CreateIndex("pos", "a", func(r column.Reader) bool { return r.Int() > 0 })
+	var wg sync.WaitGroup
+	for _, r := range []uint32{16384, 32768} {
+		wg.Add(1)
+		go func(r uint32) {
+			defer wg.Done()
+			for i := 0; i < 200; i++ {
+				c.QueryAt(r, func(row column.Row) error { row.SetInt64("a", int64(i+1)); return nil })
+			}
+		}(r)
+	}
+	wg.Wait()
+	n := 0
+	c.Query(func(txn *column.Txn) error { n = txn.With("pos").Count(); return nil })
+	if n != 2 {
+		rep.Violations = append(rep.Violations, Violation{Property: rep.Property, Kind: "oracle",
+			Clause: fmt.Sprintf("late index: %d rows selected by an index over two rows with positive values", n), Script: []string{"stress lateIndexWitness"}})
+	}
+	c.Close()
+	rep.count("late-index-witness")
+}
+
 func runStress(rep *Report, replay string) {
 	dur := 3 * time.Second
 	if rep.Tier == "thorough" {
@@ -119,6 +152,7 @@ func runStress(rep *Report, replay string) {
 	}
 	if rep.Property == "C18" && replay == "" {
 		growthWitness(rep)
+		lateIndexWitness(rep)
 	}
 	c := stressColl()
 	// initial population: rows keep the invariant a + b = sum, s = decimal(a)
